@@ -15,6 +15,7 @@ static int nx_op_bytes(int k, char *buf, int max);	/* the input bytes of operati
 static int nx_enabled(int k);				/* is operation k enabled in the current state? */
 static void nx_at_state(void);				/* oracle at every choice point (depth >= 0) */
 static unsigned long long nx_state_hash(void);		/* canonical state hash, 0 = no state matching */
+static int nx_leaf_retries;				/* how often the quit sequence is offered again before "noquit" */
 static int nx_leaf_bytes(char *buf, int max);		/* input that makes the editor quit at a leaf */
 static void nx_at_exit(void);				/* the editor returned from nv_main */
 static const char *nx_config_name(void);
@@ -202,6 +203,15 @@ static void nx_choice(void)
 			nx_probe_fn();
 		fflush(nv_out);
 		_exit(0);
+	}
+	if (nx_in_leaf && nx_in_leaf <= nx_leaf_retries) {
+		/* the quit sequence was consumed as text (e.g. by an a/i/c inside :g): offer it again */
+		char buf[1024];
+		int n = nx_leaf_bytes(buf, sizeof(buf));
+		nx_in_leaf++;
+		nvx_feed(buf, n);
+		alarm(nx_horizon);
+		return;
 	}
 	if (nx_in_leaf) {
 		/* the quit sequence did not end the editor: it asks for more input */
